@@ -183,9 +183,48 @@ def run(ctx):
             ctx.check(changes and not badl, 'R4', 'CpuTiAction::%s accounts for the elapsed interval (update_remaining_amount(now)) before changing what that accounting reads' % nm, where(fs[0], badl[0] if badl else None),
                       'the change at line %s is made first: update_remaining_amount() then %s for the interval that has just elapsed' % (badl[0], 'skips this action or counts suspended time as work' if nm != 'set_sharing_penalty' else 'divides by the new penalty') if badl else '',
                       key='R4|CpuTiAction::%s|accounting before the state change' % nm)
+    run_ti_profile(ctx, P, A)
     run_units(ctx, P, A)
     ctx.assume('numerical agreement of the algorithms is not decided; for the trace-integration (TI) CPU only the accounting order of its action mutators is')
     return EXPLANATION
+
+
+def run_ti_profile(ctx, P, A):
+    """R7: the trace-integration CPU never ignores an availability profile it is given"""
+    ctx.rule('R7', 'CpuTiTmgr(profile, scale): without a profile the constant availability is the given scale; with a profile, on every path, either the integrated profile is built '
+             'from it or the constant is read from its event list (a one-point profile is a constant availability, which the Lazy and Full algorithms honour)', 1)
+    cs = [f for f in P.fns.values() if f['q'].endswith('CpuTiTmgr::CpuTiTmgr') and f.get('blocks') and len(f['params']) == 2]
+    ctx.require(len(cs) == 1, 'R7', 'CpuTiTmgr(Profile*, double): %d definitions' % len(cs))
+    for f in cs[:1]:
+        v = A.view(f)
+        prof, scale = lib.parm_i(f, 0), lib.parm_i(f, 1)
+        n_with = n_without = 0
+        bad = []
+        for p in v.paths(max_visits=1):
+            if p.exit in ('noreturn', 'cut', 'throw'):
+                continue
+            evs = v.path_events(p)
+            has = [e.pol for e in evs if e.kind == 'branch' and e.atom == ('truthy', prof)]
+            vals = [e for e in evs if e.kind == 'assign' and e.lhs[0] == 'field' and e.lhs[2].endswith('CpuTiTmgr::value_')]
+            built = [e for e in evs if (e.kind == 'call' and 'CpuTiProfile' in e.q and any(ex.mentions(a, prof) for a in e.args)) or
+                     (e.kind == 'assign' and e.lhs[0] == 'field' and e.lhs[2].endswith('::profile_') and ex.mentions(e.rhs, prof))]
+            if has and has[0] is False:
+                n_without += 1
+                if not (vals and vals[-1].rhs == scale):
+                    bad.append('without a profile value_ is %s' % ([ex.pretty(x.rhs) for x in vals] or 'not set'))
+            elif has and has[0] is True:
+                n_with += 1
+                env = {e.lhs: e.rhs for e in evs if e.kind == 'assign' and e.lhs[0] == 'var' and e.lhs[1] == 'local'}
+
+                def reaches(t, d=0):
+                    if ex.mentions(t, prof):
+                        return True
+                    return d < 4 and any(reaches(env[x], d + 1) for x in ex.subterms(t) if x in env)
+                from_prof = [x for x in vals[-1:] if reaches(x.rhs)]
+                if not built and not from_prof:
+                    bad.append('a path with a profile neither integrates it nor reads its value (value_ = %s): the host runs at the given scale whatever the profile says' % ([ex.pretty(x.rhs) for x in vals] or 'unset'))
+        ctx.check(n_with >= 1 and n_without >= 1 and not bad, 'R7', 'CpuTiTmgr: the availability comes from the profile whenever there is one', where(f), '; '.join(sorted(set(bad))) or '%d path(s) with a profile, %d without' % (n_with, n_without),
+                  key='R7|CpuTiTmgr|profile honoured')
 
 
 def run_units(ctx, P, A):
